@@ -1479,7 +1479,8 @@ class C08:
         ib = (impl.get("binnings") or [{}])[0]
         mb = doc["binning"]
         if mb["t"] == "fixed":
-            got = {"adaptive": ib.get("adaptive"), "count": ib.get("bin_count"), "w": rs(ib.get("bin_width")), "shift": rs(ib.get("bin_shift")),
+            got = {"adaptive": ib.get("adaptive"), "count": ib.get("bin_count"), "w": rs(ib["bin_width"]) if ib.get("bin_width") is not None else None,
+                   "shift": rs(ib["bin_shift"]) if ib.get("bin_shift") is not None else None,
                    "tmin": ib.get("bin_times_min") if ib.get("bin_times_min") is not None else 0}
             exp = {k: mb[k] for k in ("adaptive", "count", "w", "shift", "tmin")}
             if got != exp:
@@ -1541,7 +1542,8 @@ class C08:
             d.append("document: number of binnings")
         for a, (ib, mb) in enumerate(zip(ibs, doc["binnings"])):
             if mb["t"] == "fixed":
-                got = {"adaptive": ib.get("adaptive"), "count": ib.get("bin_count"), "w": rs(ib.get("bin_width")), "shift": rs(ib.get("bin_shift")),
+                got = {"adaptive": ib.get("adaptive"), "count": ib.get("bin_count"), "w": rs(ib["bin_width"]) if ib.get("bin_width") is not None else None,
+                   "shift": rs(ib["bin_shift"]) if ib.get("bin_shift") is not None else None,
                        "tmin": ib.get("bin_times_min") if ib.get("bin_times_min") is not None else 0}
                 exp = {k: mb[k] for k in ("adaptive", "count", "w", "shift", "tmin")}
                 if got != exp:
